@@ -9,16 +9,23 @@ open Pyemv Pyemv.Gen
 theorem sm_encrypt_command_data (sk d : Bytes) (t : EncryptionType) :
     Gen.sm.encrypt_command_data sk d t = encryptCommandData sk d t := by
   unfold Gen.sm.encrypt_command_data encryptCommandData pyMod
-  simp only [mac_pad2, tools_ecb, tools_cbc, bind, Except.bind, pure, Except.pure]
+  try simp only [bind_pure]      -- `do let v ← e; pure v` is `e` (single-exit rewrites)
+  simp only [mac_pad2, tools_ecb, tools_cbc, bind, Except.bind, pure, Except.pure, except_match_eta]
   by_cases h : sk.length = 16
   · simp only [h, ne_eq, not_true_eq_false, if_false]
     cases t <;> simp [throw, throwThe, MonadExceptOf.throw] <;> (try (repeat (first | rfl | split) <;> simp_all))
     -- fall-back for rewrites that compute "needs padding" first and pad afterwards
     all_goals (cases hp : pad2 d (some 8) <;> by_cases hm : d.length % 8 = 0 <;>
       simp_all [zeros, List.replicate])
-    -- … and for rewrites that re-bind the data to its padded form inside the MasterCard branch and return once
-    all_goals (first | omega | (have hpos : 0 < d.length % 8 := by omega
-                                simp [hpos]))
+    -- … and for rewrites that re-bind the data to its padded form inside the MasterCard branch and return once, or
+    -- bind the result in every branch and return it once
+    all_goals first
+      | omega
+      | (have hpos : 0 < d.length % 8 := by omega
+         simp [hpos]; done)
+      | (have hz : ¬ 0 < d.length % 8 := by omega
+         simp [hz]; done)
+      | (simp; done)
   · simp [h, throw, throwThe, MonadExceptOf.throw]
 
 /-- **C07 about the translated source**: each scheme enciphers its documented frame -/
